@@ -1448,13 +1448,25 @@ def range_boundary_calls(api, recs):
     returns (param, label, wording, Call); raising there is raises-in-domain:<fn>:<param>:<label>"""
     out = []
     for fn in api.fns.values():
-        m = re.search(r":raises:\s*(ValueError if input epoch outside the (-?\d+)[/-](-?\d+) range)", fn.doc)
+        m = re.search(r":raises:\s*(ValueError if input epoch outside the (-?\d+)([/-])(-?\d+) range)", fn.doc)
         if m and fn.params and fn.params[0].name == "epoch" and fn.kind in ("static", "func"):
-            lo, hi = int(m.group(2)), int(m.group(3))
-            for label, e in (("year%d" % lo, "Epoch(%d, 1, 1.0)" % lo), ("year%d" % lo, "Epoch(%d, 7, 1.0)" % lo),
-                             ("year%d" % hi, "Epoch(%d, 1, 1.0)" % hi), ("year%d" % hi, "Epoch(%d, 7, 1.0)" % hi),
-                             ("year%d" % hi, "Epoch(%d, 12, 31.5)" % hi)):
+            lo, hi = int(m.group(2)), int(m.group(4))
+            if m.group(3) == "/":
+                # 'A/B': an interval of the epoch as a fractional year (property text: query epochs in [A, B]):
+                # both ends and one day inside are accepted, one day outside is refused
+                inside = (("year%d" % lo, "Epoch(%d, 1, 1.0)" % lo), ("year%d" % lo, "Epoch(%d, 1, 2.0)" % lo),
+                          ("year%d" % hi, "Epoch(%d, 1, 1.0)" % hi), ("year%d" % hi, "Epoch(%d, 12, 31.0)" % (hi - 1)))
+                outside = (("before-year%d" % lo, "Epoch(%d, 12, 31.0)" % (lo - 1)), ("after-year%d" % hi, "Epoch(%d, 1, 2.0)" % hi))
+            else:
+                # 'A-B': calendar years A .. B (Pluto: the property quantifies over the years 1885-2099)
+                inside = (("year%d" % lo, "Epoch(%d, 1, 1.0)" % lo), ("year%d" % lo, "Epoch(%d, 7, 1.0)" % lo),
+                          ("year%d" % hi, "Epoch(%d, 1, 1.0)" % hi), ("year%d" % hi, "Epoch(%d, 7, 1.0)" % hi),
+                          ("year%d" % hi, "Epoch(%d, 12, 31.5)" % hi))
+                outside = (("before-year%d" % lo, "Epoch(%d, 12, 1.0)" % (lo - 1)), ("after-year%d" % hi, "Epoch(%d, 2, 1.0)" % (hi + 1)))
+            for label, e in inside:
                 out.append(("epoch", label, m.group(1), make_call(fn, None, [e], {}, "range-boundary")))
+            for label, e in outside:
+                out.append(("epoch", "!" + label, m.group(1), make_call(fn, None, [e], {}, "range-boundary-outside")))
     seen = set()
     for c in recs:
         fn = api.fns.get(c.key)
@@ -1475,6 +1487,13 @@ def range_boundary_calls(api, recs):
 
 
 def check_range_boundary(api, fn, param, label, wording, call, shapes):
+    if label.startswith("!"):       # just outside the documented range: must be refused with ValueError
+        o = run_call(api, call, check_state=False)
+        if o.setup_exc is not None: return []
+        if isinstance(o.exc, ValueError): return []
+        got = "raises %s" % type(o.exc).__name__ if o.exc is not None else "returns %s" % shape(o.result)
+        return [finding("not-refused-out-of-range:%s:%s:%s" % (fn.key, param, label[1:]),
+                        "%s %s just outside its documented range (docstring: ':raises: %s')" % (fn.key, got, wording), call)]
     fs, o = check_in_domain(api, fn, call, shapes, None)
     for f in fs:
         if f["key"] == "raises-in-domain:" + fn.key:
